@@ -5,7 +5,7 @@ TRUSTED_BASE_COMMON = [
     "no axioms: every property theorem is 'Closed under the global context' (Print Assumptions audited on every run)",
     "hand-written Gallina model of dlt-core (coq/Model/*.v) — tied to /repo by the differential correspondence run of this check, on the inputs listed in this file only",
     "Coq extraction to OCaml with ExtrOcamlBasic only (no Extract Constant/Inductive of our own), ocamlopt 4.13.1, ocaml/driver.ml (line I/O); cross-checked per run by vm_compute inside Coq on a sample of the same cases",
-    "Rust harness (generators, wire printers, oracles), rustc/cargo as installed; built twice: with debug-assertions and overflow-checks (the results compared with the model) and as a release build without them (its results must equal the checked build's wherever that did not panic); every case additionally re-run on a fresh thread (results must agree)",
+    "Rust harness (generators, wire printers, oracles), rustc/cargo as installed; built twice: with debug-assertions and overflow-checks (the results compared with the model) and as a release build without them (its results must equal the checked build's wherever that did not panic); a third build with the crate's debug and serialization features (results must be equal); every case additionally re-run on a fresh thread (results must agree); a Trace-level warm-up call per process; the harness's logger re-enters the crate",
     "the source dictionary (harness/src/dict.rs) reads the literals of $DLTV_REPO_SRC with a small hand-written scanner; it only steers which inputs are generated",
 ]
 
